@@ -250,6 +250,14 @@ fn find_cached_jsdoc_description(
     }
 }
 
+/// The text a template chunk stands for, with its escape sequences resolved.
+fn tpl_chunk_text(chunk: &swc_ecma_ast::TplElement) -> String {
+    match &chunk.cooked {
+        Some(cooked) => cooked.to_string_lossy().to_string(),
+        None => chunk.raw.to_string(),
+    }
+}
+
 pub struct FrontendCtx<'a, R: FileManager> {
     pub files: &'a mut R,
     pub settings: &'a BeffUserSettings,
@@ -2979,7 +2987,7 @@ impl<'a, R: FileManager> FrontendCtx<'a, R> {
             if selecting_quasis {
                 let quasis = &it.quasis[quasis_idx];
                 quasis_idx += 1;
-                acc.push(TplLitTypeItem::StringConst(quasis.raw.to_string()));
+                acc.push(TplLitTypeItem::StringConst(tpl_chunk_text(quasis)));
                 selecting_quasis = false;
             } else {
                 let type_ = &it.types[types_idx];
@@ -3004,10 +3012,7 @@ impl<'a, R: FileManager> FrontendCtx<'a, R> {
             self.convert_ts_tpl_lit_type_non_trivial(it, file_name)
         } else {
             Ok(Runtype::single_string_const(
-                &it.quasis
-                    .iter()
-                    .map(|it| it.raw.to_string())
-                    .collect::<String>(),
+                &it.quasis.iter().map(tpl_chunk_text).collect::<String>(),
             ))
         }
     }
